@@ -26,6 +26,11 @@ mod suite_debruijn;
 mod suite_eval;
 mod suite_progstat;
 mod suite_lexer;
+mod pipeline;
+mod ser_store;
+mod suite_pipeline;
+mod resolve_ref;
+mod suite_programs;
 
 use std::env;
 
@@ -40,13 +45,15 @@ fn main() {
     let (suite, tier, seed, dir) = (args[1].clone(), args[2].clone(), args[3].parse::<u64>().unwrap_or(0), args[4].clone());
     // run on a big stack: the implementation recurses deeply
     let child = std::thread::Builder::new()
-        .stack_size(1 << 30)
+        .stack_size(64 << 20)
         .spawn(move || {
             let mut out = out::Out::new(&dir, &suite);
             match suite.as_str() {
                 "debruijn" => suite_debruijn::run(&mut out, &tier, seed),
                 "eval" => suite_eval::run(&mut out, &tier, seed),
                 "lexer" => suite_lexer::run(&mut out, &tier, seed),
+                "pipeline" => suite_pipeline::run(&mut out, &tier, seed),
+                "programs" => suite_programs::run(&mut out, &tier, seed),
                 "progstat" => suite_progstat::run(&mut out, &tier, seed),
                 _ => {
                     eprintln!("unknown suite {suite}");
